@@ -158,6 +158,9 @@ class Program:
                     abody, term = acc
                     return S(_subst_params(term, args))
                 return ("call", name, args)
+            if name == "std::mem::replace" and len(args) == 2 and args[1] in (("call", "String::new", ()), ("call", "Vec::new", ()),
+                                                                            ("str", "")):
+                return ("callm", "std::mem::take", (args[0],), t[3])      # replace(x, Default::default()) is take(x)
             return ("callm", name, args, t[3])
         if tag == "bin":
             op, a, b = t[1], S(t[2]), S(t[3])
@@ -326,7 +329,21 @@ class Program:
                         return r
         if dist:
             a, b = _poly(v1), _poly(v2)
-            if is_int_poly(a) and is_int_poly(b) and not (v1[0] in ("adt", "tuple") or v2[0] in ("adt", "tuple")):
+            # f64: `if x > c { x } else { c }` with a finite constant c is x.max(c) for every x, NaN included
+            # (NaN fails the test and f64::max ignores a NaN operand); likewise min
+            for (x, c, nx) in ((v1, v2, n1), (v2, v1, n2)):
+                if c[0] == "float" and x[0] != "float":
+                    d = _poly(x) - _poly(c)
+                    r = None
+                    if ("gt0", d) in nx or ("ge0", d) in nx:
+                        r = ("call", "f64::max", (x, c))
+                    elif ("gt0", -d) in nx or ("ge0", -d) in nx:
+                        r = ("call", "f64::min", (x, c))
+                    if r is not None:
+                        r = self.simp(r, body)
+                        memo[key] = r
+                        return r
+            if is_int_poly(a) and is_int_poly(b) and not (v1[0] in ("adt", "tuple", "float") or v2[0] in ("adt", "tuple", "float")):
                 for n in dist:
                     r = None
                     if n in (GE0(a - b), GT0(a - b)):
